@@ -474,6 +474,9 @@ struct Out {
     untemplated: BTreeSet<String>,
     read_ok_by_method: BTreeMap<String, u64>,
     read_writers: BTreeMap<String, u64>,
+    probe_cases: u64,
+    probe_entitled: u64,
+    enum_histories: u64,
     worlds: Vec<Value>,
 }
 
@@ -839,6 +842,106 @@ async fn reads_phase(t: &Tables, out: &mut Out) {
     }
 }
 
+/// The operations the enumerated histories are made of: two databases, two keys, every kind of admin operation.
+fn alphabet() -> Vec<Op> {
+    let (k1, k2) = ("enum-key-1".to_string(), "enum-key-2".to_string());
+    vec![
+        Op::Create(A.into(), Some(k1.clone())),
+        Op::Create(B.into(), Some(k2.clone())),
+        Op::Create(A.into(), None),
+        Op::SetKey(A.into(), k1.clone()),
+        Op::SetKey(A.into(), k2.clone()),
+        Op::SetKey(B.into(), k1.clone()),
+        Op::RemoveKey(A.into()),
+        Op::RemoveKey(B.into()),
+        Op::Close(A.into()),
+        Op::Open(A.into()),
+        Op::Restart,
+    ]
+}
+
+/// `info` on every database path with every token; each answer is compared with the model, and the direct
+/// oracle requires the uniform rejection for every (token, database) pair the harness's own record of the
+/// admin operations does not entitle.
+async fn probe(w: &mut World, t: &Tables, out: &mut Out, reference: &mut Option<(u16, Vec<(String, String)>, Vec<u8>)>) {
+    let tokens: [Option<&str>; 5] = [None, Some(ADMIN), Some("enum-key-1"), Some("enum-key-2"), Some("enum-key-0")];
+    let mut obs_list = Vec::new();
+    for db in [A, B, PRIMARY, MISSING] {
+        for tok in tokens {
+            let r = w.rpc(tok, &format!("/{db}"), Ct::Json, "info", Value::Null).await;
+            out.evaluations += 1;
+            let obs = classify(false, true, "POST", db, "info", &r, t);
+            let is_admin = tok == Some(ADMIN);
+            let entitled = tok.is_some() && w.bound.get(db).map(|k| k.as_str()) == tok;
+            if !is_admin && !entitled {
+                let same = match reference {
+                    None => {
+                        *reference = Some((r.status, r.headers.clone(), r.body.clone()));
+                        true
+                    }
+                    Some(x) => x.0 == r.status && x.1 == r.headers && x.2 == r.body,
+                };
+                let right = r.status == t.unauthorized.0 && r.code() == t.unauthorized.1 && r.message() == t.unauthorized.2;
+                if !same || !right || r.attempts != 0 {
+                    out.fail("outsider-not-rejected-uniformly",
+                        format!("after {} admin operations, token {tok:?} (not bound to {db}) is not rejected on /{db}: {}", w.ops.len(), r.status),
+                        json!({"history": w.ops, "history_results": w.op_results, "uri": format!("/{db}"), "authorization": tok.map(|t| format!("Bearer {t}")),
+                               "method": "info", "bound_now": w.bound, "response": resp_brief(&r)}));
+                }
+            }
+            if entitled && !is_admin {
+                out.probe_entitled += 1;
+            }
+            obs_list.push(tup(vec![json!([db]), tok.map(|t| some(json!(format!("Bearer {t}")))).unwrap_or(Value::Null), obs]));
+        }
+    }
+    out.probe_cases += 1;
+    writeln!(out.file, "{}", json!({"kind": "probe", "case": tup(vec![some(json!(ADMIN)), json!(w.ops.clone())]), "obs": obs_list,
+                                   "key": format!("enum|{}", serde_json::to_string(&w.ops).unwrap_or_default())})).unwrap();
+}
+
+/// Every sequence of 1..=max_len operations of the alphabet; the bindings are probed after the sequence and
+/// again after a restart of the server over the same object store.
+async fn enumerated_histories(t: &Tables, out: &mut Out, max_len: usize) {
+    let alpha = alphabet();
+    let mut reference = None;
+    for len in 1..=max_len {
+        let mut idx = vec![0usize; len];
+        loop {
+            let mut w = World::new("enum", Some(ADMIN)).await;
+            for i in &idx {
+                w.apply(&alpha[*i]).await;
+            }
+            probe(&mut w, t, out, &mut reference).await;
+            w.apply(&Op::Restart).await;
+            probe(&mut w, t, out, &mut reference).await;
+            writeln!(out.file, "{}", json!({"kind": "history", "case": tup(vec![some(json!(ADMIN)), json!(w.ops.clone())]), "obs": w.op_results.clone(), "label": "enum"})).unwrap();
+            out.enum_histories += 1;
+            w.state.shutdown().await;
+            // next index vector
+            let mut k = len;
+            loop {
+                if k == 0 {
+                    break;
+                }
+                k -= 1;
+                idx[k] += 1;
+                if idx[k] < alpha.len() {
+                    break;
+                }
+                idx[k] = 0;
+                if k == 0 {
+                    k = usize::MAX;
+                    break;
+                }
+            }
+            if k == usize::MAX {
+                break;
+            }
+        }
+    }
+}
+
 fn random_history(rng: &mut Rng) -> Vec<Op> {
     let names = [A, B, C, PRIMARY, MISSING, MALFORMED, "tenant_d", "tenant_e"];
     let keys = ["rk-one-1", "rk-two-2", "rk-three-3", " ", ADMIN, "rk-four-4"];
@@ -879,6 +982,9 @@ async fn run(args: &[String]) {
         untemplated: BTreeSet::new(),
         read_ok_by_method: BTreeMap::new(),
         read_writers: BTreeMap::new(),
+        probe_cases: 0,
+        probe_entitled: 0,
+        enum_histories: 0,
         worlds: vec![],
     };
     let c = |n: &str, k: &str| Op::Create(n.into(), Some(k.into()));
@@ -891,6 +997,7 @@ async fn run(args: &[String]) {
         ("closed_reopened".into(), Some(ADMIN), [base.clone(), vec![Op::Close(A.into()), Op::Open(A.into()), Op::Close(B.into())]].concat(), "key-a1".into(), "key-b1".into(), "key-c1".into(), true),
         ("restarted".into(), Some(ADMIN), [base.clone(), vec![Op::SetKey(B.into(), "key-b2".into()), Op::Restart, Op::Open(C.into())]].concat(), "key-a1".into(), "key-b2".into(), "key-b1".into(), true),
         ("shared_key".into(), Some(ADMIN), [base.clone(), vec![Op::SetKey(B.into(), "key-a1".into()), Op::SetKey(PRIMARY.into(), "key-p".into()), Op::SetKey(MISSING.into(), "key-m".into())]].concat(), "key-a1".into(), "key-b1".into(), "key-p".into(), true),
+        ("revoked_last_restarted".into(), Some(ADMIN), vec![c(A, "key-a1"), Op::Create(B.into(), None), Op::RemoveKey(A.into()), Op::Restart], "key-a2".into(), "key-b1".into(), "key-a1".into(), true),
         ("open_instance".into(), None, vec![c(A, "key-a1"), Op::Create(A.into(), None), Op::SetKey(A.into(), "key-a1".into()), Op::Create(B.into(), None)], "key-a1".into(), "key-b1".into(), "key-a0".into(), true),
     ];
     for i in 0..n_random {
@@ -911,9 +1018,12 @@ async fn run(args: &[String]) {
         w.state.shutdown().await;
     }
     reads_phase(&t, &mut out).await;
+    let enum_len: usize = arg_value(args, "--enum").and_then(|s| s.parse().ok()).unwrap_or(3);
+    enumerated_histories(&t, &mut out, enum_len).await;
     let summary = json!({
         "kind": "summary", "evaluations": out.evaluations, "model_cases": out.model_cases, "oracle_failures": out.oracle_failures,
         "failures": out.failures, "classes": out.classes, "by_principal": out.by_principal, "worlds": out.worlds,
+        "enumerated_histories": out.enum_histories, "enumerated_max_len": enum_len, "probe_cases": out.probe_cases, "probes_by_entitled_key": out.probe_entitled,
         "tenant_requests_handled": out.tenant_handled, "tenant_mutations": out.tenant_writes,
         "reads": out.reads, "read_ok_by_method": out.read_ok_by_method, "read_writers": out.read_writers, "untemplated_read_methods": out.untemplated,
         "read_methods": t.db.iter().chain(t.root.iter()).filter(|r| r.2 == "Read").map(|r| r.0.clone()).collect::<BTreeSet<_>>(),
